@@ -317,6 +317,20 @@ def rescale_rule(ctx, d2):
                     d2.ok(cons, '%s._stoichiometry = s / -(s[%s._reactant_index]) (inline normalisation)' % (recv, recv), f, stmt)
                     continue
 
+            # a copy of the stoichiometry of an operand that _math_compatible_reaction has accepted (same reactant, same basis): already normalised
+            if isinstance(stmt, ast.Assign) and isinstance(n, ast.Attribute) and n.attr == '_stoichiometry':
+                v = stmt.value
+                if isinstance(v, ast.Call) and isinstance(v.func, ast.Attribute) and v.func.attr == 'copy' and not v.args \
+                        and isinstance(v.func.value, ast.Attribute) and v.func.value.attr == '_stoichiometry' and isinstance(v.func.value.value, ast.Name):
+                    opn = v.func.value.value.id
+                    vetted = any(isinstance(x, ast.Assign) and any(isinstance(t, ast.Name) and t.id == opn for t in x.targets)
+                                 and isinstance(x.value, ast.Call) and src(x.value.func) == 'self._math_compatible_reaction' and x.lineno < stmt.lineno
+                                 for x in walk_no_nested(f.node))
+                    if vetted and recv == 'self':
+                        d2.ok(cons, 'self._stoichiometry = %s._stoichiometry.copy(): copy of an operand vetted by _math_compatible_reaction (same reactant and basis, '
+                              'hence already normalised)' % opn, f, stmt)
+                        continue
+
             def is_rescale(nd, recv=recv):
                 if nd.ast is None or nd.kind not in ('stmt',):
                     return False
